@@ -115,6 +115,14 @@ NOT_APPLICABLE = {
 PENDING_REASON = "check not built yet in this commit (static rule set designed in DESIGN.md, implementation pending)"
 
 
+REF_PROPS = {"C01", "C02", "C03", "C04", "C05", "C06", "C07", "C08", "C09", "C10", "C11", "C14", "C15", "C16", "C17", "C18", "C19", "C20"}
+REF_TECH = "; value-numbering folds (global value numbering over the Python syntax tree) of the functions on the property's " \
+           "evaluation path compared with their confirmed reference bodies"
+REF_TEXT = " In addition every library function on the property's evaluation path must fold (returned value, visible effects, " \
+           "refusals, calls with their path conditions, signature, constants read) to its confirmed reference; renames, " \
+           "temporaries, statement order of independent statements and branch polarity are not differences."
+
+
 def main():
     props = [json.loads(l)["id"] for l in open(os.path.join(HERE, "properties.jsonl"))]
     checks = []
@@ -122,6 +130,8 @@ def main():
     for pid in props:
         if pid in CLAIMED:
             tech, text, note, ref = CLAIMED[pid]
+            if pid in REF_PROPS:
+                tech, text = tech + REF_TECH, text + REF_TEXT
             checks.append({
                 "property_id": pid,
                 "quick_cmd": "bin/check %s --tier quick" % pid,
@@ -159,7 +169,8 @@ def main():
             "serves_properties": sorted(CLAIMED),
             "kind_free_text": "repository-specific static analysis: Python ast rules with a statement CFG/dominators, "
                               "literal table readers, clang JSON AST of the generated C units, sympy normal forms, "
-                              "regex automata; no execution of sasmodels code decides a verdict",
+                              "value numbering of Python function bodies against reference folds, alpha/semantic alignment "
+                              "of refactored functions, regex automata; no execution of sasmodels code decides a verdict",
         }],
         "checks": checks,
         "not_applicable": na,
